@@ -20,7 +20,18 @@
              | (2 script_tag opt lang mask_bits num_glyphs)                  gsub::apply, Features::Mask
              | (1 lookup_index tag opt alt start length)                     gsub_apply_lookup
      glyphs  = ((id (char ...) pos opt origin lig dup vert rest) ...)
-   output = ok:G,G,...[|length]  with G = id:c.c.c:pos:origin:LDV:rest   |  err:E  |  panic *)
+   TREE may have an optional fifth element (feature variations; lines without it are version 1.0 tables, tuple None):
+     fvx     = ( minor off_kind (byte ...) opt (raw ...) )
+       minor     GSUB header version 1.<minor>; with minor > 0 the header has the 32-bit featureVariationsOffset
+       off_kind  0: the offset of the bytes below (they are the tail of the table), 1: NULL, k >= 2: k - 2 bytes
+                 beyond the end of the table
+       bytes     the FeatureVariations table: u16 major, u16 minor, u32 count, count x (u32 conditionSetOffset,
+                 u32 featureTableSubstitutionOffset); ConditionSet = u16 count, u32 offsets; Condition = u16 format
+                 (1), u16 axisIndex, i16 min, i16 max (F2Dot14); FeatureTableSubstitution = u16 major, u16 minor,
+                 u16 count, count x (u16 featureIndex, u32 alternateFeatureOffset); Feature = u16 params, u16 count,
+                 u16 lookup indices
+       tuple     the variation tuple handed to gsub::apply: F2Dot14 raw values; () = None
+   output = ok:G,G,...[|length]  with G = id:c.c.c:pos:origin:LDV:rest   |  err:E  |  panic  |  gsub-unreadable:E *)
 open Model
 open Zconv
 open Verdict
@@ -150,24 +161,223 @@ let split_input (input : string) : mode * t =
   let m = if String.length input > 0 && input.[0] = 'd' then Debug else Release in
   (m, parse_tree input 1)
 
+(* ---- feature variations: the optional fifth element *)
+type fvx = { fx_minor : int; fx_off : int; fx_bytes : int list; fx_tuple : int list option }
+
+let fvx_ = function
+  | L [I minor; I off; L bytes; tu] ->
+    { fx_minor = zi minor; fx_off = zi off; fx_bytes = List.map (fun b -> zi (int_ b)) bytes;
+      fx_tuple = opt (fun t -> List.map zi (ints t)) tu }
+  | _ -> failwith "fvx"
+
+let split_top (tree : t) : (t * t * t * t * fvx option) =
+  match tree with
+  | L [gd; lay; run; gl] -> (gd, lay, run, gl, None)
+  | L [gd; lay; run; gl; x] -> (gd, lay, run, gl, Some (fvx_ x))
+  | _ -> failwith "c04 input"
+
+(* the table the model reads: a version 1.<minor> header without lists whose featureVariationsOffset points at the
+   bytes (the real table has the lists in between; the FeatureVariations scope is the same byte string) *)
+let synthetic_table (x : fvx) : z list =
+  let hdr = [0; 1; (x.fx_minor lsr 8) land 255; x.fx_minor land 255; 0; 0; 0; 0; 0; 0] in
+  let off = if x.fx_off = 0 then 14 else if x.fx_off = 1 then 0 else 14 + List.length x.fx_bytes + (x.fx_off - 2) in
+  let field = if x.fx_minor > 0 then [(off lsr 24) land 255; (off lsr 16) land 255; (off lsr 8) land 255; off land 255] else [] in
+  List.map z_of_int (hdr @ field @ (if x.fx_minor > 0 then x.fx_bytes else []))
+
+let run_on (m : mode) (lay : layout_table) (gd : gdef option) (gs : glyph list) (run : t)
+    (custom : z -> z option -> (z * z option) list -> z -> glyph list outcome)
+    (mask : z -> z option -> z -> z -> glyph list outcome) : string =
+  match run with
+  | L [I k; I script; lang; feats; I ng] when zi k = 0 ->
+    let feats = List.map (function L [I tg; alt] -> (tg, opt int_ alt) | _ -> failwith "feat") (list_ feats) in
+    outcome_to_string glyphs_to_string (custom script (opt int_ lang) feats ng)
+  | L [I k; I script; lang; I mask_; I ng] when zi k = 2 ->
+    outcome_to_string glyphs_to_string (mask script (opt int_ lang) mask_ ng)
+  | L [I k; I li; I tg; alt; I start; I length] when zi k = 1 ->
+    outcome_to_string (fun (gs', l) -> glyphs_to_string gs' ^ "|" ^ z_to_string l)
+      (gsub_apply_lookup m lay.lt_lookups gd li tg (opt int_ alt) gs start length)
+  | _ -> failwith "run"
+
 let run (input : string) : string =
   let (m, tree) = split_input input in
-  match tree with
-  | L [gd; lay; run; gl] ->
-    let gd = gdef_ gd in
-    let lay = layout_parse (layout_ lay) in
-    let gs = List.map glyph_ (list_ gl) in
-    (match run with
-     | L [I k; I script; lang; feats; I ng] when zi k = 0 ->
-       let feats = List.map (function L [I tg; alt] -> (tg, opt int_ alt) | _ -> failwith "feat") (list_ feats) in
-       outcome_to_string glyphs_to_string (gsub_apply_custom m lay gd script (opt int_ lang) feats ng gs)
-     | L [I k; I script; lang; I mask; I ng] when zi k = 2 ->
-       outcome_to_string glyphs_to_string (gsub_apply_default m lay gd script (opt int_ lang) mask ng gs)
-     | L [I k; I li; I tg; alt; I start; I length] when zi k = 1 ->
-       outcome_to_string (fun (gs', l) -> glyphs_to_string gs' ^ "|" ^ z_to_string l)
-         (gsub_apply_lookup m lay.lt_lookups gd li tg (opt int_ alt) gs start length)
-     | _ -> failwith "run")
-  | _ -> failwith "c04 input"
+  let (gd, lay, run, gl, fx) = split_top tree in
+  let gd = gdef_ gd in
+  let lay = layout_parse (layout_ lay) in
+  let gs = List.map glyph_ (list_ gl) in
+  match fx with
+  | None ->
+    run_on m lay gd gs run
+      (fun script lang feats ng -> gsub_apply_custom m lay gd script lang feats ng gs)
+      (fun script lang mask ng -> gsub_apply_default m lay gd script lang mask ng gs)
+  | Some x ->
+    (match layout_read_fv m (synthetic_table x) with
+     | Err e -> "gsub-unreadable:" ^ err_to_string e
+     | Panic -> "panic"
+     | OOB -> "oob"
+     | Ok fvt ->
+       let tu = (match x.fx_tuple with Some t -> Some (List.map z_of_int t) | None -> None) in
+       run_on m lay gd gs run
+         (fun script lang feats ng -> gsub_apply_custom_v m lay fvt gd script lang feats tu ng gs)
+         (fun script lang mask ng -> gsub_apply_default_v m lay fvt gd script lang mask tu ng gs))
+
+(* ---- independent oracle for feature variations.  It works on the case data with OCaml integers and arrays, not
+   with the extracted model: it decodes the FeatureVariations bytes, evaluates the condition sets against the
+   tuple, finds THE FIRST record whose condition set matches and whose substitution table has a supported
+   version (a NULL substitution offset included), replaces the lookup lists of the substituted feature indices
+   in the abstract feature list, and only then asks the (proved) lookup-application model for the glyphs. *)
+exception Fv_eof
+exception Fv_badversion
+
+type fv_choice =
+  | FvNone of string                                  (* no substitution in force, why *)
+  | FvChosen of int * (int * int list option) list option   (* record index; None = NULL offset; else (feature index, alternate) in table order *)
+
+type fv_decision =
+  | FvUnreadable of string
+  | FvShapingError of string
+  | FvDecided of fv_choice
+
+let fv_oracle_decide (x : fvx) : fv_decision =
+  let d = Array.of_list x.fx_bytes in
+  let n = Array.length d in
+  (* `need o k`: k bytes at offset o, as one bounds check (read_u16be / read_array) *)
+  let need o k = if o > n || k > n - o then raise Fv_eof in
+  let u16 o = need o 2; d.(o) * 256 + d.(o + 1) in
+  let i16 o = let v = u16 o in if v >= 32768 then v - 65536 else v in
+  let u32 o = need o 4; ((d.(o) * 256 + d.(o + 1)) * 256 + d.(o + 2)) * 256 + d.(o + 3) in
+  if x.fx_minor <= 0 then FvDecided (FvNone "header version 1.0")
+  else if x.fx_off = 1 then FvDecided (FvNone "NULL featureVariationsOffset")
+  else begin
+    try
+      if x.fx_off >= 2 then raise Fv_eof;
+      let major = u16 0 in
+      if major <> 1 then raise Fv_badversion;
+      let _minor = u16 2 in
+      let count = u32 4 in
+      need 8 (8 * count);
+      let records = List.init count (fun k -> (u32 (8 + 8 * k), u32 (12 + 8 * k))) in
+      match x.fx_tuple with
+      | None -> FvDecided (FvNone "no variation tuple")
+      | Some tu ->
+        let tu = Array.of_list tu in
+        let condition_holds o =
+          try
+            let format = u16 o in
+            if format <> 1 then false
+            else begin
+              need (o + 2) 6;
+              let axis = u16 (o + 2) and mn = i16 (o + 4) and mx = i16 (o + 6) in
+              axis < Array.length tu && mn <= tu.(axis) && tu.(axis) <= mx
+            end
+          with Fv_eof -> false in
+        let cond_set_holds cs =
+          if cs = 0 then true
+          else begin
+            let cnt = u16 cs in
+            need (cs + 2) (4 * cnt);
+            let offs = List.init cnt (fun k -> u32 (cs + 2 + 4 * k)) in
+            List.for_all (fun o -> condition_holds (cs + o)) offs
+          end in
+        let alternate st o =
+          try
+            let _params = u16 (st + o) in
+            let cnt = u16 (st + o + 2) in
+            need (st + o + 4) (2 * cnt);
+            Some (List.init cnt (fun k -> u16 (st + o + 4 + 2 * k)))
+          with Fv_eof -> None in
+        let substitution st =
+          if st = 0 then None
+          else begin
+            let major = u16 st in
+            if major <> 1 then raise Fv_badversion;
+            let _minor = u16 (st + 2) in
+            let cnt = u16 (st + 4) in
+            need (st + 6) (6 * cnt);
+            Some (List.init cnt (fun k -> let fi = u16 (st + 6 + 6 * k) and o = u32 (st + 8 + 6 * k) in (fi, alternate st o)))
+          end in
+        let rec first k = function
+          | [] -> FvDecided (FvNone "no feature variation record matches")
+          | (cs, st) :: rest ->
+            if cond_set_holds cs then
+              (match (try Some (substitution st) with Fv_badversion -> None) with
+               | Some sub -> FvDecided (FvChosen (k, sub))
+               | None -> first (k + 1) rest)            (* unsupported version: rejected, go on *)
+            else first (k + 1) rest in
+        (try first 0 records with Fv_eof -> FvShapingError "Eof")
+    with
+    | Fv_eof -> FvUnreadable "Eof"
+    | Fv_badversion -> FvUnreadable "BadVersion"
+  end
+
+(* "If a record is encountered with a higher feature index value, stop searching for that feature index;
+   no substitution is made." *)
+let rec fv_oracle_substitute (recs : (int * int list option) list) (fi : int) : int list option =
+  match recs with
+  | [] -> None
+  | (i, alt) :: rest -> if i = fi then alt else if i > fi then None else fv_oracle_substitute rest fi
+
+let fv_describe (dec : fv_decision) : string =
+  match dec with
+  | FvUnreadable e -> "FeatureVariations table unreadable (" ^ e ^ ")"
+  | FvShapingError e -> "a condition set / substitution table that had to be read is unreadable (" ^ e ^ ")"
+  | FvDecided (FvNone why) -> "no substitution: " ^ why
+  | FvDecided (FvChosen (k, None)) -> Printf.sprintf "first matching record is %d with a NULL substitution: features unchanged" k
+  | FvDecided (FvChosen (k, Some recs)) ->
+    Printf.sprintf "first matching record is %d, substituting %s" k
+      (String.concat " " (List.map (fun (fi, alt) ->
+           Printf.sprintf "feature[%d]->%s" fi
+             (match alt with Some l -> "(" ^ String.concat " " (List.map string_of_int l) ^ ")" | None -> "unreadable")) recs))
+
+(* expected output of a case with a fifth element, by the oracle; None for cases without one *)
+let fv_expected (input : string) : (string * fv_decision) option =
+  let (m, tree) = split_input input in
+  match split_top tree with
+  | (_, _, _, _, None) -> None
+  | (gd, lay, run, gl, Some x) ->
+    let dec = fv_oracle_decide x in
+    let expected =
+      match dec with
+      | FvUnreadable e -> "gsub-unreadable:" ^ e
+      | _ ->
+        let gd = gdef_ gd in
+        let lay0 = layout_ lay in
+        let gs = List.map glyph_ (list_ gl) in
+        let has_tuple = x.fx_tuple <> None in
+        let fails = (match dec with FvShapingError e -> Some e | _ -> None) in
+        let lay1 =
+          (match dec with
+           | FvDecided (FvChosen (_, Some recs)) ->
+             { lay0 with lt_features =
+                 (match lay0.lt_features with
+                  | Some fl -> Some (List.mapi (fun i (tg, li) ->
+                      match fv_oracle_substitute recs i with
+                      | Some alt -> (tg, List.map z_of_int alt)
+                      | None -> (tg, li)) fl)
+                  | None -> None) }
+           | _ -> lay0) in
+        let lay1 = layout_parse lay1 in
+        let script_found script lang =
+          (match lay1.lt_scripts with
+           | None -> false
+           | Some l ->
+             let find tg = List.find_opt (fun (t, _) -> z_eqb t tg) l in
+             (match (match find script with Some s -> Some s | None -> find tAG_DFLT) with
+              | None -> false
+              | Some (_, sc) ->
+                (match lang with
+                 | Some tg -> (match List.find_opt (fun (t, _) -> z_eqb t tg) sc.sc_langs with Some _ -> true | None -> sc.sc_default <> None)
+                 | None -> sc.sc_default <> None))) in
+        run_on m lay1 gd gs run
+          (fun script lang feats ng ->
+             (* gsub_apply_custom evaluates the variations only once script and language system are found *)
+             match fails with
+             | Some _ when script_found script lang -> Err Eof
+             | _ -> gsub_apply_custom m lay1 gd script lang feats ng gs)
+          (fun script lang mask ng ->
+             match fails with
+             | Some _ -> Err Eof
+             | None -> gsub_apply_default_t m lay1 gd script lang mask has_tuple ng gs) in
+    Some (expected, dec)
 
 (* ---- histogram class of a case: run kind (A = gsub::apply, L<type> = gsub_apply_lookup on a lookup of
    that type), result kind, and whether the glyph ids changed *)
@@ -175,7 +385,17 @@ let tag (input : string) (out : string) : string =
   let (_, tree) = try split_input input with _ -> (Debug, L []) in
   try
     match tree with
-    | L [_; L [_; _; lk]; run; L gl] ->
+    | L (_ :: L [_; _; lk] :: run :: L gl :: fx) ->
+      let fvclass =
+        (match fx with
+         | [x] ->
+           (match (try fv_oracle_decide (fvx_ x) with _ -> FvUnreadable "?") with
+            | FvUnreadable _ -> "+fv:unreadable"
+            | FvShapingError _ -> "+fv:error"
+            | FvDecided (FvNone _) -> "+fv:none"
+            | FvDecided (FvChosen (_, None)) -> "+fv:null"
+            | FvDecided (FvChosen (k, Some _)) -> if k = 0 then "+fv:subst0" else "+fv:substN")
+         | _ -> "") in
       let k = (match run with
           | L (I k :: I li :: _) when zi k = 1 ->
             (match lk with
@@ -193,7 +413,7 @@ let tag (input : string) (out : string) : string =
           if ids_in = ids_out then "same" else "changed"
         end
         else if starts_with "err" out then "err" else out in
-      k ^ "/" ^ res
+      (if String.length k > 0 && k.[0] = 'L' then k else k ^ fvclass) ^ "/" ^ res
     | _ -> "?"
   with _ -> "?"
 
@@ -218,7 +438,7 @@ let scope_of (input : string) : scope =
   try
     let (_, tree) = split_input input in
     match tree with
-    | L [_; _; L (I k :: rest); L gl] ->
+    | L (_ :: _ :: L (I k :: rest) :: L gl :: _) ->
       if zi k = 0 || zi k = 2 then Whole
       else (match rest with
           | [_; _; _; I start; I length] ->
@@ -240,7 +460,7 @@ let spec_single_check (input : string) (impl : string) : string option =
   try
     let (_, tree) = split_input input in
     match tree with
-    | L [gd; lay; L [I k; I li; I tg; _alt; I start; I length]; L gl] when zi k = 1 && starts_with "ok:" impl ->
+    | L (gd :: lay :: L [I k; I li; I tg; _alt; I start; I length] :: L gl :: _) when zi k = 1 && starts_with "ok:" impl ->
       let gd = gdef_ gd in
       let lay = layout_parse (layout_ lay) in
       let gs = List.map glyph_ gl in
@@ -276,7 +496,7 @@ let spec_single_check (input : string) (impl : string) : string option =
     | _ -> None
   with _ -> None
 
-let judge (input : string) (impl : string) (model : string) : verdict =
+let judge_core (input : string) (impl : string) (model : string) : verdict =
   match spec_single_check input impl with
   | Some why -> Violation ("skip-spec", why)
   | None ->
@@ -321,3 +541,27 @@ let judge (input : string) (impl : string) (model : string) : verdict =
         else Mismatch "glyph fields outside the property (origin / vert / carried bits) differ"
     end
   end
+
+
+(* Cases with a feature-variations element are judged against the OCaml oracle (`fv_expected`: first matching
+   record recomputed from the bytes, lookup lists substituted in the abstract feature list, glyphs by the
+   proved lookup-application model of the unvaried table); the extracted feature-variations model is compared
+   separately: if it differs from an implementation that meets the oracle, that is a Mismatch. *)
+let judge (input : string) (impl : string) (model : string) : verdict =
+  match (try fv_expected input with _ -> None) with
+  | None -> judge_core input impl model
+  | Some (spec, dec) ->
+    let unreadable s = starts_with "gsub-unreadable:" s in
+    let v =
+      if unreadable impl || unreadable spec then
+        (if impl = spec then Agree
+         else Violation ("error", Printf.sprintf "implementation %s, specified %s"
+                           (String.sub impl 0 (min 40 (String.length impl))) (String.sub spec 0 (min 40 (String.length spec)))))
+      else judge_core input impl spec in
+    (match v with
+     | Agree ->
+       if model = impl then Agree
+       else Mismatch ("the extracted feature-variations model differs from the implementation, which meets the oracle ("
+                      ^ fv_describe dec ^ ")")
+     | Mismatch why -> Mismatch why
+     | Violation (cls, why) -> Violation (cls, why ^ "; feature variations: " ^ fv_describe dec))
